@@ -197,17 +197,18 @@ func matchingParen(s string) int {
 // ---------- evaluation ----------
 
 type SpecEnv struct {
-	fc    *FnCtx
-	st    *State
-	old   *State
-	vars  map[string]Val
-	pkg   *types.Package
-	fr    *Frame
-	bound map[string]Val
-	quant bool // set when a quantifier was used
-	what  string
-	prev  *State // state at the loop head (for prev() in step clauses)
-	inOld bool // inside old(): parameter names denote entry values even if a loop variable shadows them
+	fc          *FnCtx
+	st          *State
+	old         *State
+	vars        map[string]Val
+	pkg         *types.Package
+	fr          *Frame
+	bound       map[string]Val
+	quant       bool // set when a quantifier was used
+	what        string
+	prev        *State // state at the loop head (for prev() in step clauses)
+	assumeLocks bool   // evaluating a requires being assumed: unknown lock states become symbolic
+	inOld       bool   // inside old(): parameter names denote entry values even if a loop variable shadows them
 }
 
 func (env *SpecEnv) with(st *State) *SpecEnv {
@@ -793,12 +794,37 @@ func (env *SpecEnv) call(c *ast.CallExpr) Val {
 			return intVal(untypedInt, env.expr(c.Args[0]).S)
 		case "ref": // object identity
 			return intVal(untypedInt, refOf(env.expr(c.Args[0])))
-		case "held": // held(name): monitor lock currently held
-			name := types.ExprString(c.Args[0])
-			if t, ok := env.st.locks[name]; ok {
-				return boolVal(t)
+		case "locked": // locked(x): the monitor lock of object x is held (optionally locked(x, "Monitor.name"))
+			x := env.expr(c.Args[0])
+			if x.K != KAddr {
+				env.fail("locked() needs a pointer")
 			}
-			return boolVal("false")
+			var mon *Monitor
+			for _, m := range fc.eng.monitors {
+				if types.Identical(x.A.T, m.rootType) {
+					if len(c.Args) > 1 {
+						if bl, ok := c.Args[1].(*ast.BasicLit); ok && strings.Trim(bl.Value, "\"") != m.Name {
+							continue
+						}
+					}
+					mon = m
+					break
+				}
+			}
+			if mon == nil {
+				env.fail("no monitor declared for %s", x.A.T)
+			}
+			key := lockKey(mon, x.A.Base)
+			t, ok := env.st.locks[key]
+			if !ok {
+				if env.assumeLocks {
+					t = fc.sc.fresh("held", "Bool")
+					env.st.locks[key] = t
+				} else {
+					t = "false"
+				}
+			}
+			return boolVal(t)
 		}
 		// conversions to basic / named types
 		if tt := env.resolveType(id); tt != nil && len(c.Args) == 1 {
@@ -1054,7 +1080,6 @@ func (env *SpecEnv) pureCall(fn *ssaFunction, recv *Val, argExprs []ast.Expr) Va
 	}
 	return fc.inline(fr, st, "true", fn, args, nil, nil)
 }
-
 
 // splitConj splits a spec into conjuncts: top-level && and the right-hand
 // side of an implication (a ==> b && c becomes a ==> b, a ==> c), so that
